@@ -296,7 +296,9 @@ def run(ctx):
     if f is None:
         raise AnalysisError("anchor vanished: _BaseSeriesXmlRewriter._add_cloned_sers")
     got = set()
-    for n in ast.walk(f.node):
+    from sa.inline import walk_expanded
+
+    for n, _owner in walk_expanded(prog, f, depth=2):
         if isinstance(n, ast.Assign) and isinstance(n.targets[0], ast.Attribute) and n.targets[0].attr == "val" \
                 and isinstance(n.targets[0].value, ast.Attribute) and isinstance(n.value, ast.Attribute):
             got.add((n.targets[0].value.attr, n.value.attr))
